@@ -7,7 +7,11 @@ package main
 import (
 	"bytes"
 	"fmt"
+	"image/color"
 	"math"
+	"os"
+	"path/filepath"
+	"sort"
 	"strings"
 
 	"github.com/EliCDavis/polyform/formats/obj"
@@ -664,7 +668,130 @@ func (c *Ctx) c05TextCase() {
 	}
 }
 
+// ---- on-disk path: obj.Save / obj.SaveAll (+ .mtl) → obj.Load ------------------------------------------
+
+func c05MatDesc(m *modeling.Material) string {
+	if m == nil {
+		return "<nil>"
+	}
+	kd := "-"
+	if m.DiffuseColor != nil {
+		r, g, b, _ := m.DiffuseColor.RGBA()
+		kd = fmt.Sprintf("%d,%d,%d", r>>8, g>>8, b>>8)
+	}
+	tex := "-"
+	if m.ColorTextureURI != nil {
+		tex = *m.ColorTextureURI
+	}
+	return fmt.Sprintf("%s|%g|%s|%s", strings.ReplaceAll(m.Name, " ", ""), m.SpecularHighlight, kd, tex)
+}
+
+func c05MatGroups(names []string, meshes []modeling.Mesh, expectNil bool) string {
+	parts := []string{fmt.Sprint(len(names))}
+	for i, n := range names {
+		mm := meshes[i].Materials()
+		parts = append(parts, hs(n), fmt.Sprint(meshes[i].PrimitiveCount()), fmt.Sprint(len(mm)))
+		for _, x := range mm {
+			d := c05MatDesc(x.Material)
+			if x.Material == nil && expectNil {
+				dm := modeling.DefaultMaterial() // what the writer puts in the .mtl for a nil material
+				d = c05MatDesc(&dm)
+			}
+			parts = append(parts, hs(d), fmt.Sprint(x.PrimitiveCount))
+		}
+	}
+	return strings.Join(parts, " ")
+}
+
+func (c *Ctx) c05FsCase(dir string, k int) {
+	// a pool of distinct materials (distinct name, Ns, Kd, texture)
+	np := 2 + c.Rng.Intn(3)
+	pool := make([]*modeling.Material, np)
+	for i := range pool {
+		tex := fmt.Sprintf("tex_%d.png", i)
+		m := &modeling.Material{Name: fmt.Sprintf("mat_%d", i), SpecularHighlight: float64(10 + i),
+			DiffuseColor: color.RGBA{R: uint8(255 * (i & 1)), G: uint8(255 * ((i >> 1) & 1)), B: uint8(255 * ((i >> 2) & 1)), A: 255}}
+		if c.Rng.Intn(3) != 0 {
+			m.ColorTextureURI = &tex
+		}
+		pool[i] = m
+	}
+	n := 1 + c.Rng.Intn(3)
+	useSave := c.Rng.Intn(3) == 0
+	if useSave {
+		n = 1
+	}
+	names := make([]string, n)
+	meshes := make([]modeling.Mesh, n)
+	for i := range meshes {
+		names[i] = fmt.Sprintf("m%d", i)
+		if useSave {
+			names[i] = ""
+		}
+		nt := 1 + c.Rng.Intn(6)
+		idx := make([]int, 3*nt)
+		for j := range idx {
+			idx[j] = c.Rng.Intn(4)
+		}
+		pos := []vector3.Float64{vector3.New(0., 0., float64(i)), vector3.New(1., 0., float64(i)), vector3.New(0., 1., float64(i)), vector3.New(1., 1., float64(i))}
+		var mm []modeling.MeshMaterial
+		for _, cnt := range c.c05Partition(nt) {
+			x := modeling.MeshMaterial{PrimitiveCount: cnt}
+			if c.Rng.Intn(10) != 0 {
+				x.Material = pool[c.Rng.Intn(np)]
+			} else {
+				c.Note("fs.nil-material")
+			}
+			mm = append(mm, x)
+		}
+		meshes[i] = modeling.NewTriangleMesh(idx).SetFloat3Attribute(modeling.PositionAttribute, pos).SetMaterials(mm)
+	}
+	want := c05MatGroups(names, meshes, true)
+	objPath := filepath.Join(dir, fmt.Sprintf("scene_%d.obj", k))
+	got := Guard(func() string {
+		if useSave {
+			if err := obj.Save(objPath, meshes[0]); err != nil {
+				return "save-err"
+			}
+			c.Note("fs.save")
+		} else {
+			in := map[string]modeling.Mesh{}
+			for i, nm := range names {
+				in[nm] = meshes[i]
+			}
+			if err := obj.SaveAll(objPath, in); err != nil {
+				return "save-err"
+			}
+			c.Note("fs.saveall")
+		}
+		back, err := obj.Load(objPath)
+		if err != nil {
+			return "load-err"
+		}
+		sort.Slice(back, func(a, b int) bool { return back[a].Name < back[b].Name })
+		bn := make([]string, len(back))
+		bm := make([]modeling.Mesh, len(back))
+		for i, g := range back {
+			bn[i], bm[i] = g.Name, g.Mesh
+		}
+		return c05MatGroups(bn, bm, false)
+	})
+	c.Emit("c05.holds.fs_materials", want+" "+got, "true")
+}
+
 func runC05(c *Ctx) {
+	if dir, err := os.MkdirTemp("", "verif-c05-"); err == nil {
+		nfs := c.N / 3
+		if nfs > 600 {
+			nfs = 600
+		}
+		for k := 0; k < nfs; k++ {
+			c.c05FsCase(dir, k)
+		}
+		os.RemoveAll(dir)
+	} else {
+		c.Note("fs.mkdirtemp-failed")
+	}
 	// fixed witnesses of the two known deviation classes, every run
 	red := "red"
 	tri := func(name string, off float64, mats []c05Mat) c05Mesh {
